@@ -135,3 +135,37 @@ func VerifMulticastRestart() {
 	symapi.Assert(src.ConsumerCount() == 1 && !proxy.closed, "restarted-proxy-keeps-serving-the-group")
 	symapi.Reach("end")
 }
+
+// VerifMulticastCycles (C03 / C12): the group is used, emptied and used again (join, leave,
+// join, leave), and the stream ends the way it really does - the publisher leaves, the stream
+// is unregistered and closes its consumers - while a member is attached: every cycle stops the
+// proxy when the last member leaves, and the stream's end closes every member.
+func VerifMulticastCycles() {
+	symapi.Deterministic(true)
+	src := media.NewStream("/live/a", verifSdp)
+	media.Regist(src)
+	proxy := &multicastProxy{path: "/live/a", multicastIP: "239.1.1.1", ttl: 1, bufferSize: 1024}
+	for i := range proxy.ports {
+		proxy.ports[i] = 5000 + i
+	}
+	cycles := symapi.IntRange("cycles", 1, 2)
+	for k := 0; k < cycles; k++ {
+		m := &verifMember{}
+		proxy.AddMember(m)
+		symapi.Settle()
+		symapi.Assert(src.ConsumerCount() == 1 && !proxy.closed, "group-served-in-every-cycle")
+		proxy.ReleaseMember(m)
+		symapi.Settle()
+		symapi.Assert(src.ConsumerCount() == 0 && proxy.closed, "proxy-stops-when-the-last-member-leaves-in-every-cycle")
+		symapi.Assert(m.closed == 0, "a-member-that-left-is-not-closed-by-the-proxy")
+	}
+	m := &verifMember{}
+	proxy.AddMember(m)
+	symapi.Settle()
+	symapi.Assert(src.ConsumerCount() == 1, "group-served")
+	media.Unregist(src) // the publisher leaves
+	symapi.Settle()
+	symapi.Assert(m.closed == 1, "member-closed-when-the-stream-ends")
+	symapi.Assert(proxy.closed && len(proxy.members) == 0, "proxy-stopped-when-the-stream-ends")
+	symapi.Reach("end")
+}
